@@ -55,7 +55,8 @@ Record loop_state := mkLoop { l_tracker : tracker; l_buffer : list input; l_log 
 Definition input_step (m : actions) (tm : time) (r : raw) (c : consumed) (dev : device) (a : aid)
            (st : loop_state) (b : ibind) : loop_state * ibind :=
   let v := reader_value r c dev (ib_input b) in
-  if ib_ignored b && as_bool v then (st, b)
+  (* held-input suppression looks at the raw device state (InputReader::raw_value: nothing consumed, no UI flag) *)
+  if ib_ignored b && as_bool (reader_value r consumed_reset dev (ib_input b)) then (st, b)
   else
     let '(ms', v', lg1) := apply_mods m tm v (ib_mods b) in
     let '(cs', cur, lg2) := apply_conds m tm (tracker_new v') (ib_conds b) in
